@@ -99,6 +99,10 @@ def main():
             text += (f" The decision logic of {GUARDS[pid]} is re-translated from the source into Lean on every run (translate/py2lean_guards.py → LK/Generated/Guards{pid}.lean) "
                      f"and proved to be the model's (LK/Proofs/Guards{pid}.lean); a broken obligation triggers the failing-input search.")
             tech += " + per-run translation of decision logic with proof obligations"
+        if pid == "C10":
+            text += (" The linear systems the explicit / implicit row solvers and fold-ins hand to the Cholesky solver are re-translated on every run into Mathlib matrix terms (translate/py2lean_als.py → LK/Generated/AlsC10.lean) "
+                     "and proved to be the normal equations of the documented objectives (ridge penalty reg × entry count; confidence-weighted system over all rows, via restriction to the row's entries).")
+            tech = "Lean/Mathlib optimality theorems + per-run translation of the solvers' linear systems proved to be the normal equations + residual evaluation of trained rows (measurement)"
         if pid == "C20":
             text += (" sample_negatives / _check_negatives / _check_negatives_and_resample are re-translated on every run into one function recursing on the attempt budget (translate/py2lean_neg.py → LK/Generated/NegC20.lean) "
                      "and proved equal to the model's sampleVerified (sampleT_eq).")
